@@ -74,6 +74,13 @@ def run(fx, rep, tier):
         rep.obls.append(o)
     for f in sub.floors:
         rep.floors.append(f)
+    rep.rule("C13-R6", "equal quantities have equal representations: unit maps and base-dimension maps never keep an entry whose "
+                       "power cancelled to zero, so J/N is m on both sides of a law (canonical form, shared with C02-R1)")
+    sub = type(rep)(rep.prop, rep.tier)
+    c02.r1_canonical(facts, sub)
+    for o in sub.obls:
+        o["rule"] = "C13-R6"
+        rep.obls.append(o)
     from . import c01
     sub = type(rep)(rep.prop, rep.tier)
     c01.r4_totality(facts, sub, "C13-R5")
